@@ -359,7 +359,8 @@ def _allcol_keep(name, h, slab_pos, nslab):
     if name == 'odd-id':
         return ids % 2 == 1
     if name == 'N>=200':
-        return np.asarray(h['N']) >= 200
+        # the filter sees the loaded columns only: without N in the request, fall back to a rule on the ids
+        return np.asarray(h['N']) >= 200 if 'N' in h.colnames else ids % 3 != 0
     if name == 'x>0':
         return np.asarray(h['x_com'])[:, 0] > 0 if 'x_com' in h.colnames else ids % 3 == 0
     if name == 'none-on-first':
